@@ -24,17 +24,21 @@ pub enum Payload {
     Tlv(Kind, Vec<u8>),
     Pair(Kind, Vec<u8>),
     Type(Type),
-    Tlvs(Vec<u8>),
+    /// a TLV section; the cursor is advanced by `next()` this many times before it is written
+    Tlvs(Vec<u8>, usize),
 }
 
 #[derive(Clone, Debug)]
 pub enum Op {
-    New { vc: u8, afp: u8 },
-    With { vc: u8, tr: v2::Protocol, addr: v2::Addresses },
+    /// `bitor`: obtain the two control bytes from the typed API (`Version::Two | Command::..`,
+    /// `AddressFamily::.. | Protocol::..`) instead of passing the raw codes
+    New { vc: u8, afp: u8, bitor: bool },
+    With { vc: u8, tr: v2::Protocol, addr: v2::Addresses, bitor: bool },
     Reserve(usize),
     SetLen(Option<u16>),
     Write(Payload),
-    Writes(Vec<Payload>),
+    /// a batch; `lazy` = handed over through an iterator adaptor that does not know its length
+    Writes(Vec<Payload>, bool),
     WriteTlv(Kind, Vec<u8>),
     Build,
 }
@@ -118,7 +122,8 @@ pub fn payload_json(p: &Payload) -> Value {
         Payload::Tlv(k, b) => json!({"ty": "tlv", "t": kind_json(k), "v": rl(b)}),
         Payload::Pair(k, b) => json!({"ty": "pair", "t": kind_json(k), "v": rl(b)}),
         Payload::Type(t) => json!({"ty": "type", "name": type_name(*t)}),
-        Payload::Tlvs(b) => json!({"ty": "tlvs", "v": rl(b)}),
+        Payload::Tlvs(b, 0) => json!({"ty": "tlvs", "v": rl(b)}),
+        Payload::Tlvs(b, adv) => json!({"ty": "tlvs", "v": rl(b), "adv": adv}),
     }
 }
 
@@ -129,7 +134,7 @@ pub fn payload_from(v: &Value) -> Payload {
         "tlv" => Payload::Tlv(kind_from(&v["t"]), unrl(&v["v"])),
         "pair" => Payload::Pair(kind_from(&v["t"]), unrl(&v["v"])),
         "type" => Payload::Type(type_from(v["name"].as_str().unwrap())),
-        "tlvs" => Payload::Tlvs(unrl(&v["v"])),
+        "tlvs" => Payload::Tlvs(unrl(&v["v"]), v.get("adv").and_then(|a| a.as_u64()).unwrap_or(0) as usize),
         ty => Payload::Int { ty: ty.to_string(), neg: v["neg"].as_bool().unwrap(), mag: unflat(&v["mag"]) },
     }
 }
@@ -152,12 +157,12 @@ fn tr_from(s: &str) -> v2::Protocol {
 
 pub fn op_json(op: &Op) -> Value {
     match op {
-        Op::New { vc, afp } => json!({"op": "BNew", "vc": vc, "afp": afp}),
-        Op::With { vc, tr, addr } => json!({"op": "BWith", "vc": vc, "tr": tr_name(*tr), "a": v2_addr(addr)}),
+        Op::New { vc, afp, bitor } => json!({"op": "BNew", "vc": vc, "afp": afp, "bitor": bitor}),
+        Op::With { vc, tr, addr, bitor } => json!({"op": "BWith", "vc": vc, "tr": tr_name(*tr), "a": v2_addr(addr), "bitor": bitor}),
         Op::Reserve(n) => json!({"op": "BReserve", "n": n}),
         Op::SetLen(v) => json!({"op": "BSetLen", "v": v.map(|x| x as i64).unwrap_or(-1)}),
         Op::Write(p) => json!({"op": "BWrite", "p": payload_json(p)}),
-        Op::Writes(ps) => json!({"op": "BWrites", "ps": ps.iter().map(payload_json).collect::<Vec<_>>()}),
+        Op::Writes(ps, lazy) => json!({"op": "BWrites", "ps": ps.iter().map(payload_json).collect::<Vec<_>>(), "lazy": lazy}),
         Op::WriteTlv(k, b) => json!({"op": "BTlv", "t": kind_json(k), "v": rl(b)}),
         Op::Build => json!({"op": "BBuild"}),
     }
@@ -165,12 +170,12 @@ pub fn op_json(op: &Op) -> Value {
 
 pub fn op_from(v: &Value) -> Op {
     match v["op"].as_str().unwrap() {
-        "BNew" => Op::New { vc: v["vc"].as_u64().unwrap() as u8, afp: v["afp"].as_u64().unwrap() as u8 },
-        "BWith" => Op::With { vc: v["vc"].as_u64().unwrap() as u8, tr: tr_from(v["tr"].as_str().unwrap()), addr: addr_from(&v["a"]) },
+        "BNew" => Op::New { vc: v["vc"].as_u64().unwrap() as u8, afp: v["afp"].as_u64().unwrap() as u8, bitor: v["bitor"].as_bool().unwrap_or(false) },
+        "BWith" => Op::With { vc: v["vc"].as_u64().unwrap() as u8, tr: tr_from(v["tr"].as_str().unwrap()), addr: addr_from(&v["a"]), bitor: v["bitor"].as_bool().unwrap_or(false) },
         "BReserve" => Op::Reserve(v["n"].as_u64().unwrap() as usize),
         "BSetLen" => Op::SetLen(match v["v"].as_i64().unwrap() { x if x < 0 => None, x => Some(x as u16) }),
         "BWrite" => Op::Write(payload_from(&v["p"])),
-        "BWrites" => Op::Writes(v["ps"].as_array().unwrap().iter().map(payload_from).collect()),
+        "BWrites" => Op::Writes(v["ps"].as_array().unwrap().iter().map(payload_from).collect(), v["lazy"].as_bool().unwrap_or(false)),
         "BTlv" => Op::WriteTlv(kind_from(&v["t"]), unrl(&v["v"])),
         _ => Op::Build,
     }
@@ -216,8 +221,17 @@ fn with_dyn<R>(p: &Payload, f: &mut dyn FnMut(&dyn WriteToHeader) -> R) -> R {
             Kind::Named(t) => f(&(*t, b.as_slice())),
         },
         Payload::Type(t) => f(t),
-        Payload::Tlvs(b) => f(&TypeLengthValues::from(b.as_slice())),
+        Payload::Tlvs(b, adv) => f(&advanced(b, *adv)),
     }
+}
+
+/// A TLV section whose cursor has been advanced `adv` times (it is still the same section).
+fn advanced(bytes: &[u8], adv: usize) -> TypeLengthValues<'_> {
+    let mut tlvs = TypeLengthValues::from(bytes);
+    for _ in 0..adv {
+        let _ = tlvs.next();
+    }
+    tlvs
 }
 
 fn write_one(b: Builder, p: &Payload) -> io::Result<Builder> {
@@ -249,11 +263,11 @@ fn write_one(b: Builder, p: &Payload) -> io::Result<Builder> {
             Kind::Named(t) => b.write_payload((*t, v.as_slice())),
         },
         Payload::Type(t) => b.write_payload(*t),
-        Payload::Tlvs(v) => b.write_payload(TypeLengthValues::from(v.as_slice())),
+        Payload::Tlvs(v, adv) => b.write_payload(advanced(v, *adv)),
     }
 }
 
-fn write_many(b: Builder, ps: &[Payload]) -> io::Result<Builder> {
+fn write_many(b: Builder, ps: &[Payload], lazy: bool) -> io::Result<Builder> {
     // a heterogeneous batch: each element as a boxed closure target is awkward, so materialise
     // the concrete values and hand out `&dyn WriteToHeader` (covered by the `&T` impl).
     enum Held<'a> {
@@ -290,7 +304,7 @@ fn write_many(b: Builder, ps: &[Payload]) -> io::Result<Builder> {
                 Kind::Named(t) => Held::PairNamed((*t, v.as_slice())),
             },
             Payload::Type(t) => Held::Type(*t),
-            Payload::Tlvs(v) => Held::Tlvs(TypeLengthValues::from(v.as_slice())),
+            Payload::Tlvs(v, adv) => Held::Tlvs(advanced(v, *adv)),
         })
         .collect();
     let refs: Vec<&dyn WriteToHeader> = held
@@ -305,13 +319,53 @@ fn write_many(b: Builder, ps: &[Payload]) -> io::Result<Builder> {
             }
         })
         .collect();
-    b.write_payloads(refs)
+    if lazy {
+        // an adaptor with size_hint (0, Some(n)): the batch is the same batch
+        b.write_payloads(refs.into_iter().filter(|_| true))
+    } else {
+        b.write_payloads(refs)
+    }
+}
+
+/// The version-command byte through the typed API, when the code is a registered one.
+fn typed_vc(vc: u8) -> Option<u8> {
+    match vc {
+        0x20 => Some(v2::Version::Two | v2::Command::Local),
+        0x21 => Some(v2::Command::Proxy | v2::Version::Two),
+        _ => None,
+    }
+}
+
+/// The family-transport byte through the typed API, when both codes are registered ones.
+fn typed_afp(afp: u8) -> Option<u8> {
+    let fam = match afp >> 4 {
+        0 => v2::AddressFamily::Unspecified,
+        1 => v2::AddressFamily::IPv4,
+        2 => v2::AddressFamily::IPv6,
+        3 => v2::AddressFamily::Unix,
+        _ => return None,
+    };
+    let tr = match afp & 0x0F {
+        0 => v2::Protocol::Unspecified,
+        1 => v2::Protocol::Stream,
+        2 => v2::Protocol::Datagram,
+        _ => return None,
+    };
+    Some(if afp & 1 == 0 { fam | tr } else { tr | fam })
 }
 
 fn construct(op: &Op) -> Builder {
     match op {
-        Op::New { vc, afp } => Builder::new(*vc, *afp),
-        Op::With { vc, tr, addr } => Builder::with_addresses(*vc, *tr, *addr),
+        Op::New { vc, afp, bitor } => {
+            if *bitor {
+                Builder::new(typed_vc(*vc).unwrap_or(*vc), typed_afp(*afp).unwrap_or(*afp))
+            } else {
+                Builder::new(*vc, *afp)
+            }
+        }
+        Op::With { vc, tr, addr, bitor } => {
+            Builder::with_addresses(if *bitor { typed_vc(*vc).unwrap_or(*vc) } else { *vc }, *tr, *addr)
+        }
         other => panic!("session must start with a constructor, got {:?}", other),
     }
 }
@@ -321,7 +375,7 @@ fn apply(b: Builder, op: &Op) -> io::Result<Builder> {
         Op::Reserve(n) => Ok(b.reserve_capacity(*n)),
         Op::SetLen(v) => Ok(b.set_length(*v)),
         Op::Write(p) => write_one(b, p),
-        Op::Writes(ps) => write_many(b, ps),
+        Op::Writes(ps, lazy) => write_many(b, ps, *lazy),
         Op::WriteTlv(k, v) => match k {
             Kind::Raw(c) => b.write_tlv(*c, v.as_slice()),
             Kind::Named(t) => b.write_tlv(*t, v.as_slice()),
@@ -517,7 +571,15 @@ pub fn random_addr(rng: &mut Rng, fam: u64) -> v2::Addresses {
             v2::Addresses::IPv4(v2::IPv4::new([b[0], b[1], b[2], b[3]], [b[4], b[5], b[6], b[7]], u16::from_be_bytes([b[8], b[9]]), u16::from_be_bytes([b[10], b[11]])))
         }
         2 => {
-            let b = rng.bytes(36);
+            let mut b = rng.bytes(36);
+            for off in [0usize, 16] {
+                match rng.below(8) {
+                    0 | 1 => { for k in 0..10 { b[off + k] = 0; } b[off + 10] = 0xff; b[off + 11] = 0xff; }
+                    2 => { for k in 0..16 { b[off + k] = 0; } }
+                    _ => {}
+                }
+            }
+            if rng.chance(1, 10) { let (l, r) = b.split_at_mut(16); r[..16].copy_from_slice(l); }
             let s: [u8; 16] = b[..16].try_into().unwrap();
             let d: [u8; 16] = b[16..32].try_into().unwrap();
             v2::Addresses::IPv6(v2::IPv6::new(s, d, u16::from_be_bytes([b[32], b[33]]), u16::from_be_bytes([b[34], b[35]])))
@@ -607,7 +669,22 @@ pub fn random_payload(rng: &mut Rng, allow_big: bool) -> Payload {
         5 => Payload::Tlv(random_kind(rng), b),
         6 => Payload::Pair(random_kind(rng), b),
         7 => Payload::Type(TYPES[rng.below(12) as usize].0),
-        8 => Payload::Tlvs(b),
+        8 => {
+            let adv = *rng.pick(&[0usize, 0, 1, 2, 9]);
+            if rng.chance(1, 2) {
+                // a well-formed section of a few small items
+                let mut sec = Vec::new();
+                for _ in 0..rng.range(1, 3) {
+                    let len = rng.below(4) as usize;
+                    sec.push(rng.next() as u8);
+                    sec.extend_from_slice(&(len as u16).to_be_bytes());
+                    sec.extend(rng.bytes(len));
+                }
+                Payload::Tlvs(sec, adv)
+            } else {
+                Payload::Tlvs(b, adv)
+            }
+        }
         _ => Payload::Tlv(random_kind(rng), rng.bytes(3)),
     }
 }
@@ -616,11 +693,11 @@ fn random_ctor(rng: &mut Rng, valid_only: bool) -> Op {
     let vc = if valid_only || rng.chance(3, 4) { 0x20 | rng.below(2) as u8 } else { rng.next() as u8 };
     if rng.chance(1, 2) {
         let afp = if valid_only || rng.chance(3, 4) { ((rng.below(4) as u8) << 4) | rng.below(3) as u8 } else { rng.next() as u8 };
-        Op::New { vc, afp }
+        Op::New { vc, afp, bitor: rng.chance(1, 2) }
     } else {
         let tr = *rng.pick(&[v2::Protocol::Unspecified, v2::Protocol::Stream, v2::Protocol::Datagram]);
         let fam = rng.below(4);
-        Op::With { vc, tr, addr: random_addr(rng, fam) }
+        Op::With { vc, tr, addr: random_addr(rng, fam), bitor: rng.chance(1, 2) }
     }
 }
 
@@ -639,7 +716,7 @@ pub fn generate_builder(name: &str, count: usize, rng: &mut Rng, out: &mut dyn W
                         1 | 2 => Op::SetLen(match rng.below(5) { 0 => None, 1 => Some(0), 2 => Some(65535), _ => Some(rng.next() as u16) }),
                         3 => {
                             let k = rng.below(4) as usize;
-                            Op::Writes((0..k).map(|_| random_payload(rng, false)).collect())
+                            Op::Writes((0..k).map(|_| random_payload(rng, false)).collect(), rng.chance(1, 2))
                         }
                         4 => Op::WriteTlv(random_kind(rng), { let mut b = blob(rng); if bigs >= 2 { b.truncate(5); } if b.len() > 300 { bigs += 1; } b }),
                         _ => { let p = random_payload(rng, bigs < 2); if payload_len(&p) > 300 { bigs += 1; } Op::Write(p) }
@@ -698,6 +775,39 @@ pub fn generate_builder(name: &str, count: usize, rng: &mut Rng, out: &mut dyn W
                 n += run_ops(&format!("btotal-{}", i), &json!({"g": "btotal"}), &ops, out);
             }
         }
+        // sequences that push the buffer past the writer's size limit (65551 bytes) and then
+        // write one value of every kind; with and without an explicit length
+        "bover" => {
+            let kinds = 9;
+            for i in 0..count {
+                let ctor = random_ctor(rng, true);
+                let mut ops = vec![ctor];
+                if i % 3 != 2 {
+                    ops.push(Op::SetLen(Some(*rng.pick(&[0u16, 7, 65535]))));
+                }
+                let fill = rng.next() as u8;
+                ops.push(Op::Write(Payload::Slice(vec![fill; 65535])));
+                ops.push(Op::Write(Payload::Slice(vec![fill ^ 0xff; *rng.pick(&[0usize, 1, 16, 17, 40])])));
+                let tail = match i % kinds {
+                    0 => Payload::Type(TYPES[rng.below(12) as usize].0),
+                    1 => Payload::Int { ty: "u8".into(), neg: false, mag: vec![9] },
+                    2 => Payload::Slice(vec![]),
+                    3 => Payload::Slice(vec![1, 2, 3]),
+                    4 => Payload::Tlv(random_kind(rng), vec![]),
+                    5 => Payload::Pair(random_kind(rng), vec![5; 2]),
+                    6 => Payload::Addr(random_addr(rng, 1)),
+                    7 => Payload::Tlvs(vec![], 0),
+                    _ => Payload::Int { ty: "i64".into(), neg: true, mag: vec![1] },
+                };
+                if i % 2 == 0 {
+                    ops.push(Op::Write(tail));
+                } else {
+                    ops.push(Op::Writes(vec![Payload::Slice(vec![]), tail, Payload::Int { ty: "u16".into(), neg: false, mag: vec![1, 2] }], i % 4 == 1));
+                }
+                ops.push(Op::Build);
+                n += run_ops(&format!("bover-{}", i), &json!({"g": "bover"}), &ops, out);
+            }
+        }
         // pairs of sessions that differ only in reservations / batching
         "bpairs" => {
             for i in 0..count {
@@ -709,12 +819,12 @@ pub fn generate_builder(name: &str, count: usize, rng: &mut Rng, out: &mut dyn W
                 a.push(Op::Build);
                 let mut b = vec![ctor.clone(), Op::Reserve(*rng.pick(&[0usize, 3, 100, 70000]))];
                 if rng.chance(1, 2) {
-                    b.push(Op::Writes(ps.clone()));
+                    b.push(Op::Writes(ps.clone(), rng.chance(1, 2)));
                 } else {
                     let cut = rng.below(k as u64 + 1) as usize;
-                    b.push(Op::Writes(ps[..cut].to_vec()));
+                    b.push(Op::Writes(ps[..cut].to_vec(), rng.chance(1, 2)));
                     b.push(Op::Reserve(5));
-                    b.push(Op::Writes(ps[cut..].to_vec()));
+                    b.push(Op::Writes(ps[cut..].to_vec(), rng.chance(1, 2)));
                 }
                 b.push(Op::Build);
                 n += run_ops(&format!("bpairs-{}", i), &json!({"g": "bpairs", "pair": i, "side": "a"}), &a, out);
@@ -725,7 +835,7 @@ pub fn generate_builder(name: &str, count: usize, rng: &mut Rng, out: &mut dyn W
         "bwire" => {
             for i in 0..count {
                 let ctor = random_ctor(rng, true);
-                let ctor = match ctor { Op::New { vc, afp } => Op::With { vc, tr: tr_from(["Unspecified", "Stream", "Datagram"][(afp & 3) as usize % 3]), addr: random_addr(rng, (afp >> 4) as u64) }, c => c };
+                let ctor = match ctor { Op::New { vc, afp, bitor } => Op::With { vc, tr: tr_from(["Unspecified", "Stream", "Datagram"][(afp & 3) as usize % 3]), addr: random_addr(rng, (afp >> 4) as u64), bitor }, c => c };
                 let addr_len = match &ctor { Op::With { addr, .. } => addr.len(), _ => 0 };
                 let mut ops = vec![ctor];
                 let k = rng.below(4) as usize;
@@ -774,7 +884,7 @@ pub fn generate_builder(name: &str, count: usize, rng: &mut Rng, out: &mut dyn W
 
 fn payload_len(p: &Payload) -> usize {
     match p {
-        Payload::Slice(b) | Payload::Tlv(_, b) | Payload::Pair(_, b) | Payload::Tlvs(b) => b.len(),
+        Payload::Slice(b) | Payload::Tlv(_, b) | Payload::Pair(_, b) | Payload::Tlvs(b, _) => b.len(),
         _ => 0,
     }
 }
@@ -801,10 +911,10 @@ pub fn rebuild_sessions(sid: &str, input: &[u8], out: &mut dyn Write) -> usize {
         Err(_) => return n,
     };
     let (vc, afp) = (raw[12], raw[13]);
-    let ops = vec![Op::New { vc, afp }, Op::Write(Payload::Slice(ab.clone())), Op::Write(Payload::Slice(tb.clone())), Op::Build];
+    let ops = vec![Op::New { vc, afp, bitor: false }, Op::Write(Payload::Slice(ab.clone())), Op::Write(Payload::Slice(tb.clone())), Op::Build];
     n += run_ops_in(sid, &json!({"g": "rebuild", "mode": "raw", "of": sid}), &ops, out, false);
     if items.iter().all(|r| r.is_ok()) {
-        let mut ops = vec![Op::New { vc, afp }, Op::Write(Payload::Slice(ab.clone()))];
+        let mut ops = vec![Op::New { vc, afp, bitor: false }, Op::Write(Payload::Slice(ab.clone()))];
         for r in &items {
             let (k, v) = r.clone().unwrap();
             ops.push(Op::WriteTlv(Kind::Raw(k), v));
@@ -813,7 +923,7 @@ pub fn rebuild_sessions(sid: &str, input: &[u8], out: &mut dyn Write) -> usize {
         n += run_ops_in(sid, &json!({"g": "rebuild", "mode": "items", "of": sid}), &ops, out, false);
     }
     if !matches!(addresses, v2::Addresses::Unspecified) {
-        let ops = vec![Op::With { vc, tr: protocol, addr: addresses }, Op::Write(Payload::Tlvs(tb.clone())), Op::Build];
+        let ops = vec![Op::With { vc, tr: protocol, addr: addresses, bitor: false }, Op::Write(Payload::Tlvs(tb.clone(), 0)), Op::Build];
         n += run_ops_in(sid, &json!({"g": "rebuild", "mode": "addr", "of": sid}), &ops, out, false);
     }
     n
@@ -898,7 +1008,7 @@ pub fn generate_writer(name: &str, count: usize, rng: &mut Rng, out: &mut dyn Wr
                         0 => Payload::Slice(v),
                         1 => Payload::Tlv(Kind::Raw(0xE0 + kind as u8), v),
                         2 => Payload::Pair(Kind::Named(Type::Authority), v),
-                        _ => Payload::Tlvs(v),
+                        _ => Payload::Tlvs(v, 0),
                     };
                     let pre = if i % 2 == 0 { vec![] } else { vec![7u8; 16] };
                     n += run_writer(&format!("wbig-{}", i), &json!({"g": "wbig"}), &pre, &[p, Payload::Type(Type::NoOp)], out);
